@@ -2,7 +2,7 @@
 
 PROP = {
     "pkg": "internal/dnsforward",
-    "files": ["dnsforward/common_world_test.go", "dnsforward/c01_test.go"],
+    "files": ["dnsforward/common_world_test.go", "dnsforward/c01_test.go", "dnsforward/c01_runtime_test.go"],
     "level": "exploration",
     "technique": "property-based testing (rapid): generated rule configurations x queries through the production "
                  "request path with a recording upstream; constructive oracle + reference arrangement of the "
@@ -21,6 +21,7 @@ PROP = {
     "tests": [
         ("TestVFC01Verdict", (300, 1500)),
         ("TestVFC01Wire", (40, 200)),
+        ("TestVFC01Runtime", (150, 900)),
     ],
     "shards": (2, 16),
     "workers": (4, 16),
@@ -37,5 +38,7 @@ PROP = {
         "the pause-until instants are 6h away from the wall clock (the only wall-clock dependence)",
     ],
     "require_classes": {"thorough": ["verdict:network", "verdict:hosts", "verdict:service", "verdict:allowlist",
-                                      "verdict:exception", "wire:verdict:network"]},
+                                      "verdict:exception", "wire:verdict:network",
+                                      "rt:verdict:network", "rt:list_off_then_on_again", "rt:op:set_rules",
+                                      "rt:op:protection", "rt:op:mode", "rt:op:services"]},
 }
